@@ -9,7 +9,7 @@ RULE = (
     "shapes up to 60 nodes incl. depth >= 6; distinct = hash of (family, shape, start); trivial = single-node subtree"
 )
 ASSUMPTIONS = ["depth <= 150"]
-GATES = ["mon.C05.sequence", "C05.depth_ge_4", "C05.cousins_at_different_positions", "C05.protocol"]
+GATES = ["mon.C05.sequence", "C05.depth_ge_4", "C05.cousins_at_different_positions", "C05.protocol", "C05.after_mutation", "C05.deep_spine_with_bush"]
 
 
 def plan(tier, seed, jobs):
@@ -84,7 +84,7 @@ def run(ctx):
 
     T = ctx.tier == "thorough"
     nmax = 10 if T else 8
-    fams = ("Node", "NM", "LM", "AnyNode")
+    fams = TR.READ_FAMILIES
     idx = 0
     for n in range(1, nmax + 1):
         cnt = 0
@@ -94,7 +94,7 @@ def run(ctx):
             if not ctx.mine(idx):
                 continue
             ch = gen.children_of(par)
-            fam = fams[idx % 4]
+            fam = fams[idx % len(fams)]
             nodes = TR.build(par, fam)
             case = {"family": fam, "par": list(par)}
             for s in range(n):
@@ -106,17 +106,52 @@ def run(ctx):
         rng = ctx.rng("shape", r)
         n = rng.randint(5, 60)
         kind = "deep" if r % 5 == 0 else None
+        if r % 4 == 1:
+            kind, n = "spinebush", rng.randint(45, 130)
         par, kind = gen.random_tree(rng, n, kind)
-        fam = fams[r % 4]
+        if kind == "spinebush":
+            ctx.count("C05.deep_spine_with_bush")
+        fam = fams[r % len(fams)]
         nodes = TR.build(par, fam)
         starts = [0] + [rng.randrange(n) for _ in range(4)]
         case = {"family": fam, "par": list(par), "kind": kind}
         for s in starts:
             ctx.case((fam, par, s), sample=dict(case, start=s) if r % 200 == 0 and s == 0 else None)
         check_tree(ctx, nodes, list(par), gen.children_of(par), case, starts)
+    histories(ctx)
+
+
+def histories(ctx):
+    """The iterators are re-run on the same node objects after every step of a mutation history."""
+    from .. import trees as TR
+
+    T = ctx.tier == "thorough"
+    nh = (3000 if T else 240) // ctx.nshards + 1
+    for h in range(nh):
+        rng = ctx.rng("hist", h)
+        fam = TR.READ_FAMILIES[h % len(TR.READ_FAMILIES)]
+        k = rng.randint(4, 10)
+        for nodes, par, ch, case in TR.evolving_universe(ctx, rng, fam, k, rng.randint(4, 20)):
+            starts = [rng.randrange(k) for _ in range(3)] + [i for i in range(k) if par[i] is None][:2]
+            for s in starts:
+                ctx.case(("hist", h, len(case["history"]), s), nontrivial=bool(ch[s]))
+            ctx.count("C05.after_mutation")
+            if not check_tree(ctx, nodes, par, ch, case, starts):
+                break
 
 
 def replay(ctx, wit):
+    if "history" in wit["case"]:
+        from .. import trees as TR
+
+        ctx.case(("replay",))
+        for nodes, par, ch in TR.replay_universe(wit["case"]):
+            check_tree(ctx, nodes, par, ch, wit["case"])
+        return
+    _replay_static(ctx, wit)
+
+
+def _replay_static(ctx, wit):
     from .. import trees as TR
 
     c = wit["case"]
